@@ -2,6 +2,7 @@
   C17 — String tags round-trip text and apply the NUL / UTF-8 rules within the tag size.
   `C17Parts`: parsing characterisation and content round trip; `C17Ctor`: constructor -> tag image -> accessor round trip.
 -/
+import Mb2.Props.FnsTblFixed
 import Mb2.Props.FnsBoxedCtor
 import Mb2.Props.FnsGetters
 import Mb2.Props.C17Parts
